@@ -455,6 +455,7 @@ def run(chk):
     chk.cov['traces_validated_against_impl'] = sum(r['n'] for r in results)
     run_security(chk)
     run_forward_path(chk)
+    run_originated_path(chk)
     run_cl_failure(chk)
     return
 
@@ -544,6 +545,65 @@ def run_forward_path(chk):
         for sig, what in forward_monitor(spec, M, outs):
             chk.count('monitor:' + sig)
             chk.violation(sig, what, rep)
+
+
+def run_originated_path(chk):
+    ''' Bundles the agent ORIGINATES: a status report is built the way bp.util.create_report does it — an empty
+    BundleContainer() whose blocks are assigned afterwards — and handed to Agent.send_bundle(as_source=True) from an
+    idle source; its route (the report-to endpoint) has an MTU. Implementation-only monitors: whatever reaches the
+    CL for the report encodes to at most the MTU, and fragments tile the report's payload; when the MTU is too small
+    for any fragment nothing is sent. (send_bundle's ctr.reload() is what makes such a container fragmentable.) '''
+    import agentlib as A
+    rng = chk.rng
+    n = 30 if chk.tier == 'quick' else 300
+    rx = [(r'dtn://far/.*', 'forward'), (r'dtn://node/.*', 'deliver')]
+    for i in range(n):
+        M = rng.choice([48, 72, 76, 80, 84, 88, 92, 96, 100, 104, 108, 112, 130])
+        tx = [(r'dtn://far/.*', None), (r'dtn://rpt/.*', M)]
+        flags = rng.choice([A.F_RCV | A.F_FWD | A.F_TIME, A.F_RCV | A.F_DLV, A.F_FWD, A.F_DLV | A.F_TIME])
+        dest = rng.choice(['//far/x', '//node/app'])
+        b = {'pri': A.mk_pri(A.dtn(dest), A.dtn('//src/'), [A.T0 - 40, i], flags=flags, rpt=A.dtn('//rpt/'),
+                             ct=rng.choice([0, 1, 2])), 'rpt_none': False, 'blocks': [A.mk_blk(1, 1, bytes([i & 0xff, 1, 2]))]}
+        fix = A.Fixture(rx, tx)
+        items = [{'b': b, 'data': A.enc_bundle(b), 'now': A.T0 + 10, 'crc_ok': True}]
+        _ev, obs = A.run_real(fix, items)
+        outs = []
+        for o in obs:
+            for h in o['tx'] + o.get('frag_tx', []):
+                d = A.dec_bundle(bytes.fromhex(h))
+                if d.pri['flags'] & A.F_ADMIN and d.pri['src'] == A.NODE:
+                    outs.append((bytes.fromhex(h), d))
+        rep = {'originated_path': True, 'bundle': items[0]['data'].hex(), 'report_route_mtu': M, 'rx': rx, 'tx': tx}
+        chk.case(['orig', M, flags, dest, b['pri']['ct']], nontrivial=True)
+        chk.count('originated-report:' + ('none' if not outs else 'whole' if len(outs) == 1 and not outs[0][1].pri['flags'] & A.F_FRAG
+                                          else 'fragmented'))
+        over = [len(raw) for (raw, _d) in outs if len(raw) > M]
+        if over:
+            chk.violation('C05:originated-bundle-over-mtu',
+                          'a status report originated by the agent was handed to the CL as %s octets over a route with MTU %d'
+                          % (over, M), rep)
+            continue
+        frags = [d for (_raw, d) in outs if d.pri['flags'] & A.F_FRAG]
+        if frags:
+            frags.sort(key=lambda d: d.pri['foff'])
+            cat = b''
+            ok = len(frags) == len(outs)
+            for d in frags:
+                pay = [k for k in d.blocks if k['n'] == 1]
+                if len(pay) != 1 or d.pri['foff'] != len(cat) or not all(d.crc_ok):
+                    ok = False
+                    break
+                cat += bytes.fromhex(pay[0]['btsd'])
+            if ok:
+                try:
+                    rec, end = A.dec(cat)
+                    ok = end == len(cat) and rec[0] == 1 and all(d.pri['tlen'] == len(cat) for d in frags)
+                except Exception:
+                    ok = False
+            if not ok:
+                chk.violation('C05:originated-fragments-do-not-tile',
+                              'fragments of an originated status report (offsets %s) do not tile one administrative record'
+                              % [d.pri['foff'] for d in frags], rep)
 
 
 def forward_monitor(spec, M, outs):
